@@ -513,7 +513,20 @@ pub fn jobs(tier: Tier, full: bool) -> Vec<Job> {
         }
         let depth = tier.pick(2, 3);
         let cfg = TreeCfg { fragment: Some(f.clone()), ..Default::default() };
-        v.push(Job { name: format!("J3/{}", cfg.describe()), cfg, prefix: vec![], sigma: sigma.clone(), depth });
+        v.push(Job { name: format!("J3/{}", cfg.describe()), cfg: cfg.clone(), prefix: vec![], sigma: sigma.clone(), depth });
+        // J8: every fragment context x every insertion-mode witness as prepared prefix, one more symbol
+        // (two in thorough over the structural sub-alphabet)
+        for w in mode_witnesses() {
+            if !full && w.iter().any(|l| is_c02_excluded(l)) {
+                continue;
+            }
+            if tier == Tier::Thorough {
+                let sub: Vec<&'static str> = sigma.iter().cloned().filter(|l| l.starts_with('<') && !l.contains(' ') || *l == "x" || *l == " ").collect();
+                v.push(Job { name: format!("J8/{}/{}", cfg.describe(), w.concat()), cfg: cfg.clone(), prefix: w, sigma: sub, depth: 2 });
+            } else {
+                v.push(Job { name: format!("J8/{}/{}", cfg.describe(), w.concat()), cfg: cfg.clone(), prefix: w, sigma: sigma.clone(), depth: 1 });
+            }
+        }
     }
     v
 }
@@ -521,7 +534,7 @@ pub fn jobs(tier: Tier, full: bool) -> Vec<Job> {
 pub fn main(ctx: &Ctx, prop: Prop) -> ! {
     let stats = Stats { execs: AtomicU64::new(0), outcomes: Mutex::new(BTreeSet::new()), sink_calls_checked: AtomicU64::new(0), collected: AtomicU64::new(0) };
     let mut js = jobs(ctx.tier, prop != Prop::C02);
-    let budget = ctx.tier.pick(40.0, 900.0);
+    let budget = if prop == Prop::C18 { ctx.tier.pick(52.0, 1200.0) } else { ctx.tier.pick(40.0, 900.0) };
     let mut env = Env::default();
     env.invariants = prop == Prop::C04;
     env.gc = prop == Prop::C18;
@@ -539,7 +552,7 @@ pub fn main(ctx: &Ctx, prop: Prop) -> ! {
     let mut closed_all = true;
     let mut jobrep = vec![];
     let mut samples = vec![];
-    let weights: Vec<f64> = js.iter().map(|j| (j.sigma.len() as f64).powi(j.depth as i32).min(3e8)).collect();
+    let weights: Vec<f64> = js.iter().map(|j| (j.sigma.len() as f64).powi(j.depth as i32).min(3e7)).collect();
     for (i, j) in js.iter().enumerate() {
         let left = budget - ctx.elapsed();
         let rest: f64 = weights[i..].iter().sum();
